@@ -154,7 +154,11 @@ class TreeCheck:
                 self._points.add((p.get("role"), p.get("thr"), tuple(p["pt"])))
             if facts.outcome == "hard_timeout":
                 V.inconc("hard_timeout_without_stall_witness")
-                if V.inconclusive.get("hard_timeout_without_stall_witness", 0) <= 2:
+                try:
+                    _sz = sum(os.path.getsize(os.path.join(hist.dir, f_)) for f_ in os.listdir(hist.dir) if os.path.isfile(os.path.join(hist.dir, f_)))
+                except OSError:
+                    _sz = 1 << 30
+                if V.inconclusive.get("hard_timeout_without_stall_witness", 0) <= 2 and _sz < 1_500_000:
                     # kept for diagnosis only (never a verdict): something kept writing events until the hard limit
                     common.save_replay(self.prop, "inconclusive-hard-timeout-%d" % V.inconclusive["hard_timeout_without_stall_witness"], copy_dir=hist.dir)
                 return facts
